@@ -842,25 +842,35 @@ theorem validateIn_legacy_redeem {Tx} {H : Hashes} {C : TxCodec Tx} {txin : TxIn
       spk.cmds[1]? = scriptHash160 H r ∧ (scriptHash160 H r).isSome = true ∧
       namedInScript p.namedPubs r = true := by
   unfold validateIn at h
-  cases hpt : p.prevTx with
-  | none =>
-    simp only [hpt, hpo, hr, Option.bind_eq_bind, Option.bind_eq_some_iff, req_eq_some_iff, exists_const] at h
-    obtain ⟨_, hs, spk, rfl, h1, h2, c, hc, rh, hrh, heq, hn⟩ := h
-    simp only [beq_iff_eq] at heq
-    subst heq
-    exact ⟨spk, hs, h1, by simpa using h2, by rw [hc, hrh], by simp [hrh], hn⟩
-  | some t =>
-    simp only [hpt, hpo, hr, Option.bind_eq_bind, Option.bind_eq_some_iff, req_eq_some_iff, exists_const] at h
-    obtain ⟨_, hs, _, _, _, _, spk, rfl, h1, h2, c, hc, rh, hrh, heq, hn⟩ := h
-    simp only [beq_iff_eq] at heq
-    subst heq
-    exact ⟨spk, hs, h1, by simpa using h2, by rw [hc, hrh], by simp [hrh], hn⟩
+  cases hpt : p.prevTx <;> cases hw : p.witnessScript <;>
+    simp only [hpt, hpo, hr, hw, Option.bind_eq_bind, Option.bind_eq_some_iff, req_eq_some_iff, exists_const,
+      beq_iff_eq] at h
+  all_goals
+    obtain ⟨ospk, hs, hrest⟩ := h
+    cases ospk with
+    | none => exfalso; grind
+    | some spk => exact ⟨spk, hs, by grind⟩
+
+/-- the non-witness branch with a WitnessScript (F11g repaired) -/
+theorem validateIn_legacy_witness {Tx} {H : Hashes} {C : TxCodec Tx} {txin : TxInV} {p : PIn Tx} {ws : Script}
+    (hpo : p.prevOut = none) (hw : p.witnessScript = some ws) (h : validateIn H C txin p = some ()) :
+    ∃ spk, p.scriptPubkey C txin = some (some spk) ∧ isP2wsh spk = true ∧
+      spk.cmds[1]? = scriptSha256 H ws ∧ (scriptSha256 H ws).isSome = true := by
+  unfold validateIn at h
+  cases hpt : p.prevTx <;> cases hr : p.redeem <;>
+    simp only [hpt, hpo, hr, hw, Option.bind_eq_bind, Option.bind_eq_some_iff, req_eq_some_iff, exists_const,
+      Option.pure_def, beq_iff_eq] at h
+  all_goals
+    obtain ⟨ospk, hs, hrest⟩ := h
+    cases ospk with
+    | none => exfalso; grind
+    | some spk => exact ⟨spk, hs, by grind⟩
 
 /-- the witness branch -/
 theorem validateIn_witness {Tx} {H : Hashes} {C : TxCodec Tx} {txin : TxInV} {p : PIn Tx} {po : TxOutV}
     (hpo : p.prevOut = some po) (h : validateIn H C txin p = some ()) :
     ∃ spk, p.scriptPubkey C txin = some (some spk) ∧ (isP2sh spk || isP2wsh spk || isP2wpkh spk) = true ∧
-      (∀ r, p.redeem = some r → (isP2sh spk && !isWitnessProgram r) = false) ∧
+      (∀ r, p.redeem = some r → (isP2sh spk && !isWitnessProgram r) = false ∧ isP2sh spk = true) ∧
       (∀ ws, p.witnessScript = some ws →
         (p.redeem = none → isP2wsh spk = true ∧ po.spk.cmds[1]? = scriptSha256 H ws) ∧
         (∀ r, p.redeem = some r → (isP2wsh spk || isP2wsh r) = true ∧ spk.cmds[1]? = scriptHash160 H r ∧
@@ -1082,7 +1092,7 @@ def namedWrong : Dict Bytes := [(body1 ++ [7], fp1 ++ [6, 0, 0, 0]), (body2 ++ [
 def wrongPath : TxOutV × POut := p2wshChange (multisig (body1 ++ [7]) (body2 ++ [6])) namedWrong
 def psbtWrongPath : Psbt TTx := psbtWith [pin] [wrongPath.1, spendOut] [wrongPath.2, {}]
 
-/-- candidate F11g: non-witness UTXO paying to a 2-of-2 P2WSH, a 1-of-2 WitnessScript attached -/
+/-- F11g-type (first shape): non-witness UTXO paying to a 2-of-2 P2WSH, a 1-of-2 WitnessScript attached -/
 def prevT22 : TTx :=
   { id := [9], ins := [],
     outs := [{ amount := 100, spk := p2wshOf { cmds := [.op 82, .push (body1 ++ [5]), .push (body2 ++ [5]), .op 82, .op 174] } }] }
@@ -1115,5 +1125,58 @@ theorem perm_of_nodup_subset_length {α} [DecidableEq α] :
       simp only [List.length_cons] at hl
       omega
     exact (List.perm_cons_erase ha).trans ((ih (keys.erase a) hnd' hsub' hl').cons a)
+
+namespace Toy
+/-- F11g-type (second shape): witness UTXO paying to a 2-of-2 P2WSH, a 1-of-2 script attached as
+    *RedeemScript* (no WitnessScript) -/
+def pinUnchecked2 : PIn TTx :=
+  { prevOut := some { amount := 100, spk := p2wshOf { cmds := [.op 82, .push (body1 ++ [5]), .push (body2 ++ [5]), .op 82, .op 174] } },
+    redeem := some (walletScript 5), namedPubs := named 5, value := some 100 }
+def psbtUnchecked2 : Psbt TTx := psbtWith [pinUnchecked2] [changeOut, spendOut] [changeMap, {}]
+end Toy
+
+theorem isP2wpkh_iff (s : Script) :
+    isP2wpkh s = true ↔ ∃ h, s.cmds = [.op 0, .push h] ∧ h.length = 20 := by
+  unfold isP2wpkh
+  rcases hs : s.cmds with _ | ⟨a, _ | ⟨b, _ | ⟨c, t⟩⟩⟩
+  · simp [pat, Gen.psbtP2wpkhPattern]
+  · simp [pat, Gen.psbtP2wpkhPattern]
+  · cases a <;> cases b <;> simp [pat, Gen.psbtP2wpkhPattern, cmdIsOp, cmdIsPushLen]
+    constructor
+    · rintro ⟨rfl, h⟩; exact ⟨_, ⟨rfl, rfl⟩, h⟩
+    · rintro ⟨h, ⟨rfl, rfl⟩, hl⟩; exact ⟨rfl, hl⟩
+  · simp [pat, Gen.psbtP2wpkhPattern]
+
+/-- a script ending in an opcode (as every script `get_quorum` accepts does) is not a witness program -/
+theorem not_witnessProgram_of_last_op {s : Script} {k : Nat} (h : s.cmds.getLast? = some (.op k)) :
+    isWitnessProgram s = false := by
+  cases hw : isWitnessProgram s with
+  | false => rfl
+  | true =>
+    exfalso
+    unfold isWitnessProgram at hw
+    simp only [Bool.or_eq_true] at hw
+    rcases hw with hw | hw
+    · obtain ⟨b, hc, _⟩ := (isP2wpkh_iff s).mp hw
+      rw [hc] at h
+      simp at h
+    · obtain ⟨b, hc, _⟩ := (isP2wsh_iff s).mp hw
+      rw [hc] at h
+      simp at h
+
+/-- with a witness UTXO, the scriptPubKey `PSBTIn.script_pubkey()` returns has the witness UTXO's commands
+    (it is the witness UTXO's, or — F11d — the matching output of the non-witness UTXO) -/
+theorem scriptPubkey_cmds_of_prevOut {Tx} {H : Hashes} {C : TxCodec Tx} {txin : TxInV} {p : PIn Tx}
+    {wutxo : TxOutV} {spk : Script}
+    (hv : validateIn H C txin p = some ()) (hpo : p.prevOut = some wutxo)
+    (hs : p.scriptPubkey C txin = some (some spk)) : spk.cmds = wutxo.spk.cmds := by
+  cases hpt : p.prevTx with
+  | none =>
+    simp only [PIn.scriptPubkey, hpt, hpo, Option.some.injEq] at hs
+    rw [← hs]
+  | some t =>
+    obtain ⟨utxo, hu, _, hc⟩ := validateIn_both_utxos hpt hpo hv
+    simp only [PIn.scriptPubkey, hpt, hu, Option.some.injEq] at hs
+    rw [← hs, hc]
 
 end Buidl.Psbt
